@@ -30,6 +30,9 @@ class Spec:
         self.alpha += [("burst", fn) for fn in self.fns]
         self.prefix = [(0, "RXTUNE %d" % F2), (0, "TXTUNE %d" % F1), (1, "RXTUNE %d" % F1), (1, "TXTUNE %d" % F2),
                        (0, "SETFORMAT %d" % vs), (1, "SETFORMAT %d" % vr), (0, "POWERON"), (1, "POWERON")]
+        if vs != vr:
+            # the sender's timing advance applies to a forwarded burst, not to the NOPE indication that replaces one
+            self.prefix.insert(4, (0, "SETTA 3"))
 
     def build(self):
         W = AppWorld(self.defs)
